@@ -66,14 +66,14 @@ PROPS = {
         level="proof", engines=[eng("reconn", 40, 800, timeout=1500)], labels=["C10"],
         text="Partial. Theorems (Props/C10.lean): connect() is retried for every request popped while the node is not connected; with a reachable peer a node stays unusable only in the two wedges of C09; "
              "the no-timer clause is refuted on the model (timer_wait_reachable: a reply on a live stream while the receiver sleeps in its back-off — the known finding) and holds outside that state (no_timer_wait_partial). "
-             "Tie: connection decisions regenerated; the manager's back-off configuration reaches both the channel's reconnect loop and gRPC's re-dialling (backoff_forwarded_good, read from NewRawManager / newChannel); digests of connect / reconnect / newNodeStream / receiver / sender / newChannel / newContext / dial / NodeStream; engine reconn: nodes down at creation, stop/start rounds, "
+             "Tie: connection decisions regenerated; the back-off arithmetic of reconnect read from the tree (backoffArith_good) and modelled (Model/Backoff.lean): for every configuration with a multiplier of at least one and a jitter of at most one, every number of failed attempts and every draw, the wait between two attempts is at most MaxDelay·(1+Jitter), at least delay·(1−Jitter), never shrinks as failures accumulate and stays at the cap once it is reached (sleep_le, sleep_ge, delay_mono, delay_capped): a node that listens again is retried within a bound that does not depend on the length of the outage; the manager adds no dial option besides the codec's content subtype and the connect parameters (dialOpts_good); the manager's back-off configuration reaches both the channel's reconnect loop and gRPC's re-dialling (backoff_forwarded_good, read from NewRawManager / newChannel); digests of connect / reconnect / newNodeStream / receiver / sender / newChannel / newContext / dial / NodeStream; engine reconn: nodes down at creation, stop/start rounds, "
              "back-off base 1.5 s vs 30 ms, lag between 'handler replied' and 'call returned', an RPC whose request the restarted server handled must not fail, general and per-node metadata and exactly one connect callback on every accepted stream.",
-        note="Partial: timers are abstract (a timer wait is recognised at runtime by a lag above 1 s with a 1.5 s base delay).",
+        note="Partial: timers are abstract in the LTS (a timer wait is recognised at runtime by a lag above 1 s with a 1.5 s base delay); the back-off arithmetic is modelled over natural numbers with products rounded down, the code computes in float64; gRPC's own re-dialling is outside the model (its configuration is a T1 fact, its effect is observed by engine reconn's outage scenario).",
     ),
     "C12": dict(
         level="proof", engines=[eng("close", 20, 400, timeout=1500)], labels=["C12"],
         text="Partial. Theorems (Props/C12.lean): after Close, a state in which nothing can move has both goroutines exited (unless the receiver is blocked in the back-pressure wedge); no stream is alive and no request is "
-             "accepted after Close; the exiting sender leaves no request in the queue and the exiting receiver no request unanswered; hence after Close, at rest, nothing is owed — no caller is stranded — outside the back-pressure wedge (closed_rest_owes_nothing). Connections (model NodeConn of RawNode.dial / close, Props/NodeConnP.lean): a node has at most one live connection, the current one; once close has run none is live, no dial is in progress and none can be created again; close is idempotent; each of the four facts this rests on is needed (needs_closesOld, needs_checksClosed, needs_lockedDial, needs_closeCloses). Tie: send-queue capacity regenerated; the four facts of dial / close (connMu held throughout dial, refusal after close, the replaced connection is closed, close sets the flag and closes under connMu) and 'Manager.Close reaches every node once' read from node.go / mgr.go (nodeConn_good, mgrClose_good); digests of Close / closeNodeConns / RawNode.close / connect / enqueue / sender / receiver / reconnect / "
+             "accepted after Close; the exiting sender leaves no request in the queue and the exiting receiver no request unanswered; hence after Close, at rest, nothing is owed — no caller is stranded — outside the back-pressure wedge (closed_rest_owes_nothing). Connections (model NodeConn of RawNode.dial / close, Props/NodeConnP.lean): a node has at most one live connection, the current one; once close has run none is live, no dial is in progress and none can be created again; close is idempotent; each of the four facts this rests on is needed (needs_closesOld, needs_checksClosed, needs_lockedDial, needs_closeCloses). Over the pool (model MgrClose, Props/MgrCloseP.lean: Close's loop interleaved with the dials of the nodes' senders): once Manager.Close has returned every node is closed, no connection of any node is live and no dial is in progress, whatever happens afterwards and however often Close is called again (returned_all_closed, returned_is_final); the loop must reach every node (needs_reachesAll). Tie: send-queue capacity regenerated; the four facts of dial / close (connMu held throughout dial, refusal after close, the replaced connection is closed, close sets the flag and closes under connMu) and 'Manager.Close reaches every node once' read from node.go / mgr.go (nodeConn_good, mgrClose_good); digests of Close / closeNodeConns / RawNode.close / connect / enqueue / sender / receiver / reconnect / "
              "Multicast / Unicast; engine close: send buffer {0,1,8} x node states x in-flight calls of all types x Close once / twice / concurrently: every in-flight call returns within 3 s, calls after Close fail fast "
              "without panic, client-side library goroutines and the goroutines of the gRPC client connections are gone.",
         note="Partial: goroutine exit and socket closure are observed at runtime, not proved.",
